@@ -72,6 +72,9 @@ def gen_cases(rng, n, profile):
                 "base_fail": rng.random() < 0.2,        # failing tasks raise a BaseException that is not an Exception
                 # the backend refuses a batch at one of the caller's dispatches (submit raises)
                 "p_refuse": rng.choice([0.0, 0.0, 0.0, 0.15, 0.4]) if profile in ("c04", "c01", "c16") else 0.0}
+        if profile == "c09" and i % 3 == 0:
+            # pre_dispatch written as an expression in n_jobs, on a backend that grants fewer workers than requested
+            case.update(pre_expr=True, over_request=rng.choice([1, 2, 3]))
         if i < 16:
             # a fixed share of every run, whatever the profile: generators abandoned early (close / close from another
             # thread / drop), half of them under warnings-as-errors, inside and outside a with block, with completions
@@ -514,7 +517,7 @@ def correspondence(ctx, profile, n_cases, extra_cases=()):
 
 def replay_options(case):
     """the options of a case that change what the implementation is asked to do (not how the schedule is drawn)"""
-    return {k: case[k] for k in ("managed", "warn_error", "fresh_object_per_call", "sized_inputs", "base_fail", "avoid_control") if k in case}
+    return {k: case[k] for k in ("managed", "warn_error", "fresh_object_per_call", "sized_inputs", "base_fail", "avoid_control", "pre_expr", "over_request", "stall_call") if k in case}
 
 
 def script_of(r):
@@ -1080,7 +1083,7 @@ STALL_SCENARIOS = [
 ]
 
 
-def stall_probe(ctx, quick, prop):
+def stall_probe(ctx, quick, prop, only=None):
     """below layer A (a test, never a proof): one thread role is stalled at one source line of the dispatch /
     completion / retrieval code while the real threading backend runs; the outcome must not change"""
     rc, out, err = common.run_impl("m1_stall.py", args=["--points"], timeout=120)
@@ -1115,6 +1118,12 @@ def stall_probe(ctx, quick, prop):
         for how in ("close", "taskfail", "late_item"):
             cases.append({"kind": "late_iter", "how": how, "backend": "cf", "n_jobs": 2, "pre": 2, "return_as": ra, "N": 4,
                           "tfail": None, "ifail": None, "reuse": False, "at": None, "role": "cb", "delay": 0, "watchdog": 30})
+    # a `with Parallel(...)` block is left while its output generator is only partly consumed and tasks are still running on
+    # a backend that cannot recall them: their late completions must not take further items from the input
+    for ra in ("generator", "generator_unordered"):
+        for pre in (2, 4, "2*n_jobs"):
+            cases.append({"kind": "exit_block", "backend": "cf", "n_jobs": 2, "pre": pre, "return_as": ra, "N": 4,
+                          "tfail": None, "ifail": None, "reuse": False, "at": None, "role": "cb", "delay": 0, "watchdog": 30})
     # a backend of the documented base-class kind whose completion callback fires INSIDE submit(): results, failures and
     # reuse must be those of any other backend
     for pre in ("all", "2*n_jobs", 1, 5):
@@ -1122,6 +1131,8 @@ def stall_probe(ctx, quick, prop):
             for tf in (None, 4):
                 cases.append({"backend": "immediate", "n_jobs": 2, "pre": pre, "return_as": "list", "N": 12, "batch_size": bsz,
                               "tfail": tf, "ifail": None, "reuse": True, "at": None, "role": "cb", "delay": 0, "watchdog": 40})
+    if only:
+        cases = [c for c in cases if c.get("kind") in only]
     nproc = max(1, min(common.NCPU - 2, 12))
     chunks = [cases[i::nproc] for i in range(nproc)]
     script = os.path.join(common.ROOT, "harness", "impl", "m1_stall.py")
@@ -1154,6 +1165,11 @@ def stall_probe(ctx, quick, prop):
             tags = {"C04"}
             if r.get("hang"):
                 what = "the call hangs"
+            if c.get("kind") == "exit_block" and r.get("taken_late") is not None and r["taken_late"] != r.get("taken_at_exit"):
+                what = "%d items had been taken from the input when the with block was left (1 result consumed, the other tasks " \
+                       "still running); the completions that arrived afterwards took %d more" % (
+                           r["taken_at_exit"], r["taken_late"] - r["taken_at_exit"])
+                tags |= {"C16", "C09"}
             if r.get("ran_after_close"):
                 what = "a task taken from the input after the generator had been closed was dispatched and executed"
                 tags |= {"C16", "C09"}
@@ -1179,7 +1195,11 @@ def stall_probe(ctx, quick, prop):
                         what = what or "call %d: the input failed but the call gave %s / raised %s" % (k + 1, call["values"], call["raised"])
             if what and prop in tags and nv < 2:
                 nv += 1
-                if c.get("kind") == "late_iter":
+                if c.get("kind") == "exit_block":
+                    where = "with block left while the output generator (return_as=%s, pre_dispatch=%s) was partly consumed" % (
+                        c["return_as"], c["pre"])
+                    what = what.replace("call 1", "the NEXT call (a fresh Parallel object on the same kind of backend)")
+                elif c.get("kind") == "late_iter":
                     where = "call aborted (%s) while a completion callback was inside the input iterator, which then raised; return_as=%s" % (
                         c["how"], c["return_as"])
                     what = what.replace("call 1", "the NEXT call on the same object")
@@ -1339,6 +1359,9 @@ def extra_c09(ctx, quick):
     cov.update(real_sampling(ctx, quick, "C09", 0.7))
     cov.update(seq_path(ctx, quick, "C09"))
     cov.update(sync_backend(ctx, quick, "C09", "c04", 0.5))
+    # of the probes below layer A only the ones about input consumption after an abort (a callback inside the input
+    # iterator when the call is aborted; a with block left with a partly consumed generator)
+    cov.update(stall_probe(ctx, quick, "C09", only=("late_iter", "exit_block")))
     return cov
 
 
